@@ -389,6 +389,21 @@ def instantiate(terms, rounds=5, templates=None):
                             continue
                         done_other.add(kk)
                         new.append(Eq(preds[q], Or(*[Eq(clst[ko], I(i)) for i in ci["ids"][q]])))
+            # an object whose exact class is known (cls(o) is constrained: it was allocated here) answers EVERY class test that
+            # occurs in the VC, also those that are applied to it only through an alias term (an element of a list, a field)
+            allq = persist.setdefault("allq", set())
+            for ko, (obj, preds) in per_obj.items():
+                allq.update(preds)
+            for ko, ct in clst.items():
+                if not (ct.args[0].op == "#const" and ct.args[0].args[0].startswith("new_")):
+                    continue
+                for q in sorted(allq):
+                    kk = ("cls-id", ko, q)
+                    if kk in done_other or q not in ci["ids"]:
+                        continue
+                    done_other.add(kk)
+                    pq = App("isa_" + q.replace(".", "__"), (ct.args[0],), BOOL)
+                    new.append(Eq(pq, Or(*[Eq(ct, I(i)) for i in ci["ids"][q]])))
         # freshness: a constant new_*!N was allocated after every constant with a smaller number was created, so no
         # older term denotes it or contains it; spec functions over older sequences do not see writes to its fields
         fresh = [t for t in allsub.values() if t.op == "#const" and t.args[0].startswith("new_") and t.sort == "Ref"]
